@@ -37,6 +37,10 @@ def _group(job):
     n, s, d, c8, mode = job
     uf, ub, wd, rd = c8
     out = {"job": [n, s, d, c8, mode], "viol": [], "status": "ok", "disk_used": False}
+    den = 8
+    if "/" in mode:                      # "dp/10": numerators over another denominator (decimal / rescaled costs)
+        mode, den = mode.split("/")
+        den = int(den)
 
     def bad(pred, cfg, detail):
         out["viol"].append((pred, cfg, detail))
@@ -53,6 +57,8 @@ def _group(job):
         cfgs["H-"] = {"cls": "HRevolve", "n": n, "s": s, "d": d - 1, "c8": c8, "passes": 1}
         cfgs["H0"] = {"cls": "HRevolve", "n": n, "s": s, "d": 0, "c8": c8, "passes": 1}
     for k, cfg in cfgs.items():
+        if den != 8:
+            cfg["den"] = den
         cst, err, r = _measure(cfg)
         if err == "inconclusive":
             out["status"] = "inconclusive"
@@ -81,7 +87,7 @@ def _group(job):
     out["cost"] = costs
 
     def f(x):
-        return "%g" % (x / 8)
+        return "%.12g" % (x / den)
     if "H" in costs and costs["H"] != oh:
         bad("hrevolve-not-optimal", cfgs["H"], "%s costs %s, optimum of the hierarchical problem is %s" % (C.describe(cfgs["H"]), f(costs["H"]), f(oh)))
     if "R" in costs and costs["R"] != orv:
@@ -160,7 +166,8 @@ def _gen(job):
 
 def check_witness(data, show=False):
     g = list(data["witness"]["group"])
-    g[4] = "dp" if g[0] > 10 else "search"
+    if "/" not in g[4] and max(g[3]) < 10 ** 6:
+        g[4] = "dp" if g[0] > 10 else "search"
     out = _group(tuple(g))
     if "oracle_mismatch" in out:
         R.harness_error("oracles disagree on replay: %s" % out["oracle_mismatch"])
@@ -193,6 +200,21 @@ def run(prop, args):
     grid2 = [(n, s, 1, c8, "dp") for n in range(8, NE + 1) for s in (1, 2, 3)
              for c8 in ([8, 8, 50, 50], [8, 8, 80, 80], [8, 8, 160, 160], [8, 8, 16, 160], [8, 16, 256, 256])]
     jobs += grid2
+    # one-decimal (inexact in binary) cost vectors: every schedule cost is a multiple of 0.1, so a rounding
+    # error can only flip ties - the exact (integer-tenths) optimum must still be met exactly
+    ND10 = 28 if tier == "quick" else 60
+    grid10 = [(n, s, d, c10, "dp/10") for n in range(2, ND10 + 1) for s in (1, 2, 3) for d in (0, 1, 2)
+              for c10 in ([10, 10, 21, 23], [10, 10, 3, 3], [7, 13, 21, 5], [3, 10, 9, 11], [10, 10, 20, 20])]
+    jobs += grid10
+    # the same problems in other cost units (x 2**40 and x 2**-40: exact rescalings, the optimum scales along)
+    gridsc = []
+    for n in (3, 5, 12, 23, 40, 64):
+        for s_ in (1, 2):
+            for d in (0, 2):
+                for c8 in ([8, 8, 16, 16], [8, 16, 24, 4], [24, 8, 4, 40]):
+                    gridsc.append((n, s_, d, [x << 40 for x in c8], "dp"))
+                    gridsc.append((n, s_, d, list(c8), "dp/%d" % (8 << 40)))
+    jobs += gridsc
     LT = 100 if tier == "quick" else 260
     scan_c8 = SEARCH_C8 + [[8, 8, 32, 32], [8, 8, 64, 64], [12, 8, 188, 45], [4, 8, 64, 8], [8, 4, 8, 64], [16, 16, 16, 64]]
     scan = R.pmap(_table_scan, [(sr, 4, c8, LT) for sr in (1, 2, 3) for c8 in scan_c8], chunksize=1)
@@ -214,7 +236,9 @@ def run(prop, args):
     rep.exhaustive = [{"box": "n<=%d, RAM units<=%d, DISK units<=%d, %d cost vectors, compared with exhaustive search over all executable schedules" % (NS, SR, SD, len(SEARCH_C8)),
                        "cases": nsearch, "exhaustive": True},
                       {"box": "n in %d..%d, RAM units 1..3, DISK units 0..3, 6 cost vectors, compared with the DP" % (NS + 1, ND), "cases": len(grid), "exhaustive": True},
-                      {"box": "expensive disk: n in 8..%d, RAM units 1..3, 5 cost vectors with (wd+rd)/uf in 12.5..64" % NE, "cases": len(grid2), "exhaustive": True}]
+                      {"box": "expensive disk: n in 8..%d, RAM units 1..3, 5 cost vectors with (wd+rd)/uf in 12.5..64" % NE, "cases": len(grid2), "exhaustive": True},
+                      {"box": "one-decimal (non-dyadic) cost vectors: n in 2..%d, RAM 1..3, DISK 0..2, 5 vectors, exact comparison in tenths" % ND10, "cases": len(grid10), "exhaustive": True},
+                      {"box": "cost units rescaled by 2**40 and 2**-40: 6 n x 2 RAM x 2 DISK x 3 vectors", "cases": len(gridsc), "exhaustive": True}]
     rep.extra["oracle_selfcheck"] = {"search_vs_dp_groups": nsearch}
     for out in res:
         n, s, d, c8, mode = out["job"]
@@ -246,11 +270,16 @@ def run(prop, args):
             return any(p == pred for p, _, _ in _group(tuple(g))["viol"])
         n, s, d, c8, mode = w["group"]
         cur = {"cls": "HRevolve", "n": n, "s": s, "d": d, "c8": list(c8), "passes": 1}
-
-        def fails(c):
-            return fails_group((c["n"], c["s"], c["d"], c["c8"], "dp"))
+        dmode = "dp" + ("/" + mode.split("/")[1] if "/" in mode else "")
+        if "/" in mode or max(c8) > 10 ** 6:
+            # decimal / rescaled units: shrink n and the unit counts only, keep the cost vector
+            def fails(c):
+                return c["c8"] == list(c8) and fails_group((c["n"], c["s"], c["d"], c["c8"], dmode))
+        else:
+            def fails(c):
+                return fails_group((c["n"], c["s"], c["d"], c["c8"], dmode))
         small = C.shrink(cur, fails, budget=150)
-        g = [small["n"], small["s"], small["d"], small["c8"], "dp"]
+        g = [small["n"], small["s"], small["d"], small["c8"], dmode]
         o = _group(tuple(g))
         hit = [(cfg, det) for p, cfg, det in o["viol"] if p == pred]
         if not hit:
